@@ -45,6 +45,22 @@ var xferFilterMap = struct {
 // ErrXferPipeTooLong error
 var ErrXferPipeTooLong = errors.New("The length of transfer pipe cannot be bigger than 255")
 
+// ErrExceedUnpackSizeLimit error
+var ErrExceedUnpackSizeLimit = errors.New("size of unpacked payload exceeds limit")
+
+var unpackSizeLimit uint32 = (1 << 20) * 1024 // 1GB
+
+// UnpackSizeLimit gets the largest payload that a transfer filter may produce when unpacking.
+func UnpackSizeLimit() uint32 {
+	return unpackSizeLimit
+}
+
+// SetUnpackSizeLimit sets the largest payload that a transfer filter may produce when unpacking.
+// NOTE: socket.SetMessageSizeLimit keeps it equal to the message size limit.
+func SetUnpackSizeLimit(maxSize uint32) {
+	unpackSizeLimit = maxSize
+}
+
 // Reg registers transfer filter.
 func Reg(xferFilter XferFilter) {
 	id := xferFilter.ID()
